@@ -579,6 +579,32 @@ def dataflow_shapes():
             'd': T(join='all', publish={'w': ['var', 'v']}),
             other: T(**{'on-success': ['d']})},
             input={'v': 0, 'w': 0}, output=out)
+    # value catalogue: what the re-publishing branch writes over what the
+    # other branch merely inherited (null, falsy and container values, keys
+    # that disappear, nulls inside containers)
+    pairs = [
+        ('null', 1, None), ('zero', 1, 0), ('empty_str', 1, ''),
+        ('false', 1, False), ('empty_list', [1], []), ('empty_dict',
+                                                       {'x': 1}, {}),
+        ('from_null', None, 1), ('null_leaf', {'x': 1}, {'x': None}),
+        ('null_deep', {'x': {'y': 1}}, {'x': {'y': None}}),
+        ('dict_to_null', {'x': 1}, None), ('dict_to_scalar', {'x': 1}, 5),
+        ('scalar_to_dict', 5, {'x': 1}),
+        ('key_dropped', {'x': 1, 'y': 1}, {'x': 2}),
+        ('key_added_null', {'x': 1}, {'x': 1, 'z': None}),
+        ('list_shorter', [1, 2, 3], [9]),
+    ]
+    for fresh in ('b', 'c'):
+        other = 'c' if fresh == 'b' else 'b'
+        for pname, old, new in pairs:
+            P['val_%s_%s' % (pname, fresh)] = direct({
+                'a': T(publish={'v': ['lit', old]},
+                       **{'on-success': ['b', 'c']}),
+                fresh: T(publish={'v': ['lit', new]},
+                         **{'on-success': ['d']}),
+                other: T(**{'on-success': ['d']}),
+                'd': T(join='all', publish={'w': ['var', 'v']})},
+                input={'w': 0}, output=out)
     P['chain_inc'] = direct({
         'a': T(publish={'v': ['lit', 1]}, **{'on-success': ['b']}),
         'b': T(publish={'v': ['inc', 'v']}, **{'on-success': ['c']}),
